@@ -658,25 +658,72 @@ Definition ns_lookup_step (local : list ipaddr) (owner : name) (found : list nam
       end
   end.
 
+(* ------------------------------------------------------------------ *)
+(* qname-minimised hops.  Resolver.minimize(req, level, nomin): with minimisation on (qnameMinLevel > 0, not
+   abandoned: nomin) and the level still below qnameMinLevel the servers are asked the last level+1 labels of the
+   question name - same type and class - unless that is the whole name already (dns.PrevLabel(q.Name, level+1)
+   reports the start, or cuts nothing off). *)
+Definition minimize (qml : nat) (nomin : bool) (level : nat) (q : question) : option question :=
+  if Nat.eqb qml 0 || nomin then None
+  else if Nat.leb qml level then None
+  else if Nat.ltb (S level) (length (q_name q)) then Some (mk_q (firstn (S level) (q_name q)) (q_type q) (q_class q))
+  else None.
+
+(* what Resolver.resolve and processAuthoritySection (minimized = true; validation off or CD set, so the RFC 8020
+   short cut for a validated NXDOMAIN never fires) do with the reply to a minimised question:
+     - any Answer section: the reply is dropped, rs.level++, the same servers are asked the next longer name;
+     - nothing at all (whatever the response code): the same;
+     - an Authority section holding a SOA or a CNAME: the same;
+     - an Authority section without NS targets: Resolver.authority hands the message back as it is (Answer empty);
+     - otherwise processDelegation - the same cache boundary as on a full question (validReferral is applied to the
+       FULL question rs.req, the glue origin is the minimised name the accepted message echoes). *)
+Inductive mdisposition :=
+| MDRetry
+| MDNegative (ns extra : list rr)
+| MDDelegation.
+Definition dispose_min (m : umsg) : mdisposition :=
+  match u_answer m, u_ns m with
+  | _ :: _, _ => MDRetry
+  | [], [] => MDRetry
+  | [], _ :: _ =>
+      if existsb (fun r => (rr_type r =? T_SOA) || (rr_type r =? T_CNAME)) (u_ns m) then MDRetry
+      else match di_hosts (extract_info (u_ns m)) with
+           | [] => MDNegative (u_ns m) (u_extra m)
+           | _ => MDDelegation
+           end
+  end.
+
 Inductive deleg_outcome :=
 | DoAuthority      (* no NS host or a SOA rode along: Resolver.authority, nothing reaches the delegation cache *)
 | DoRejected       (* validReferral failed: errParentDetection *)
 | DoParent         (* rs.level > CountLabel(owner): parent detection *)
 | DoCached         (* the delegation is on file: resolveWithCachedNameservers, nothing is written *)
 | DoNoServers      (* no address for any host: errNoReachableAuth *)
-| DoStored.        (* r.delegations.SetUntil(key, ..., authservers, ...) *)
+| DoStored         (* r.delegations.SetUntil(key, ..., authservers, ...) *)
+| DoRetry.         (* minimised hop only: rs.level++, the same servers are asked again; nothing is kept *)
 
 Record deleg_result := mk_dr { dr_outcome : deleg_outcome; dr_snaps : list (bool * deleg_entry); dr_final : option deleg_entry }.
 
+(* [DelegMsg]: the reply to the full question (minimized = false).  [DelegMin]: the reply to the minimised question
+   [minimize ... level q] - [q] is still the FULL question rs.req. *)
 Inductive deleg_event :=
-| DelegMsg (auth : name) (level : nat) (q : question) (m : umsg) (order : list name) (answers : list (name * list rr)).
+| DelegMsg (auth : name) (level : nat) (q : question) (m : umsg) (order : list name) (answers : list (name * list rr))
+| DelegMin (auth : name) (level : nat) (q : question) (m : umsg) (order : list name) (answers : list (name * list rr)).
+
+Definition ev_parts (e : deleg_event) : name * nat * question * umsg :=
+  match e with
+  | DelegMsg auth level q m _ _ => (auth, level, q, m)
+  | DelegMin auth level q m _ _ => (auth, level, q, m)
+  end.
 
 Definition deleg_state := (glue_cache * deleg_cache)%type.
 
-Definition deleg_apply (local : list ipaddr) (st : deleg_state) (e : deleg_event) : deleg_state * deleg_result :=
+(* processAuthoritySection from extractDelegationInfo on, then processDelegation.  [origin]: resp.Question[0].Name,
+   where checkGlueRR cuts its bailiwick zone from; [minimized]: with no reachable server a minimised hop that is
+   still above the referral's owner goes on with the next longer name instead of failing *)
+Definition deleg_core (local : list ipaddr) (st : deleg_state) (minimized : bool) (auth : name) (level : nat) (q : question)
+           (origin : name) (m : umsg) (order : list name) (answers : list (name * list rr)) : deleg_state * deleg_result :=
   let '(gc, dc) := st in
-  match e with
-  | DelegMsg auth level q m order answers =>
       let i := extract_info (u_ns m) in
       match di_hosts i with
       | [] => (st, mk_dr DoAuthority [] None)
@@ -690,7 +737,7 @@ Definition deleg_apply (local : list ipaddr) (st : deleg_state) (e : deleg_event
                  else match deleg_get o dc with
                       | Some _ => (st, mk_dr DoCached [] None)
                       | None =>
-                          let g := check_glue false local level (q_name q) (di_hosts i) (u_extra m) in
+                          let g := check_glue false local level origin (di_hosts i) (u_extra m) in
                           let gc1 := fold_left (fun c p => glue_put (fst p) (snd p) c) (gr_addrs4 g) gc in
                           let '(gc2, hs, srv, snaps) :=
                             fold_left (ns_lookup_step local o (gr_found4 g) answers) (filter (fun h => mem_name h (di_hosts i)) order)
@@ -698,11 +745,21 @@ Definition deleg_apply (local : list ipaddr) (st : deleg_state) (e : deleg_event
                           (* a provisional publication stays on file when no final store follows; the final
                              store overwrites it under the same key *)
                           match srv with
-                          | [] => ((gc2, dc), mk_dr DoNoServers snaps None)
+                          | [] => ((gc2, dc), mk_dr (if minimized && Nat.ltb level (length o) then DoRetry else DoNoServers) snaps None)
                           | _ => let e := mk_de o hs srv in ((gc2, deleg_put o e dc), mk_dr DoStored snaps (Some e))
                           end
                       end
              end
+      end.
+
+Definition deleg_apply (local : list ipaddr) (st : deleg_state) (e : deleg_event) : deleg_state * deleg_result :=
+  match e with
+  | DelegMsg auth level q m order answers => deleg_core local st false auth level q (q_name q) m order answers
+  | DelegMin auth level q m order answers =>
+      match dispose_min m with
+      | MDRetry => (st, mk_dr DoRetry [] None)
+      | MDNegative _ _ => (st, mk_dr DoAuthority [] None)
+      | MDDelegation => deleg_core local st true auth level q (firstn (S level) (q_name q)) m order answers
       end
   end.
 
